@@ -629,4 +629,486 @@ theorem GTop.unique {ts e e'} (h : GTop ts e) (h' : GTop ts e') : e = e' := by
   simp_all
 
 
+/-! ## Part B: lexer -/
+
+def isBlank (c : Char) : Bool := Generated.exprWsChars.contains c
+
+/-- Assumption on the parameter `isWord` (true of `\w`, checked by the harness): word characters are neither
+blank nor parentheses. -/
+def WordSane (isWord : Char → Bool) : Prop :=
+  ∀ c, isWord c = true → isBlank c = false ∧ c ≠ Generated.exprLParen ∧ c ≠ Generated.exprRParen
+
+theorem extra_not_delim : ∀ c ∈ Generated.identExtraChars,
+    isBlank c = false ∧ c ≠ Generated.exprLParen ∧ c ≠ Generated.exprRParen := by decide
+
+theorem parens_facts : isBlank Generated.exprLParen = false ∧ isBlank Generated.exprRParen = false ∧
+    Generated.exprLParen ≠ Generated.exprRParen := by decide
+
+theorem identChar_not_delim {isWord} (hw : WordSane isWord) {c} (h : isIdentChar isWord c = true) :
+    isBlank c = false ∧ c ≠ Generated.exprLParen ∧ c ≠ Generated.exprRParen := by
+  unfold isIdentChar at h
+  simp only [Bool.or_eq_true, Bool.and_eq_true] at h
+  rcases h with ⟨_, h⟩ | h
+  · exact hw c h
+  · exact extra_not_delim c (by simpa using h)
+
+theorem blank_not_identChar {isWord} (hw : WordSane isWord) {c} (h : isBlank c = true) :
+    isIdentChar isWord c = false := by
+  cases hc : isIdentChar isWord c
+  · rfl
+  · have := (identChar_not_delim hw hc).1; simp_all
+
+theorem lparen_not_identChar {isWord} (hw : WordSane isWord) : isIdentChar isWord Generated.exprLParen = false := by
+  cases hc : isIdentChar isWord Generated.exprLParen
+  · rfl
+  · exact absurd rfl (identChar_not_delim hw hc).2.1
+
+theorem rparen_not_identChar {isWord} (hw : WordSane isWord) : isIdentChar isWord Generated.exprRParen = false := by
+  cases hc : isIdentChar isWord Generated.exprRParen
+  · rfl
+  · exact absurd rfl (identChar_not_delim hw hc).2.2
+
+/-! Step equations of the lexer loop. -/
+@[simp] theorem lexGo_nil (isWord f pos) : lexGo isWord f pos [] = ⟨[], .eof pos⟩ := by
+  cases f <;> rfl
+
+theorem lexGo_blank (isWord f pos) {c cs} (h : isBlank c = true) :
+    lexGo isWord (f + 1) pos (c :: cs) = lexGo isWord f (pos + 1) cs := by
+  rw [lexGo]; unfold isBlank at h; simp only [h, ↓reduceIte]
+
+theorem lexGo_lparen (isWord f pos cs) :
+    lexGo isWord (f + 1) pos (Generated.exprLParen :: cs) = (lexGo isWord f (pos + 1) cs).push (.lparen, pos) := by
+  rw [lexGo]; have := parens_facts.1; unfold isBlank at this; simp only [this, Bool.false_eq_true, ↓reduceIte, beq_self_eq_true]
+
+theorem lexGo_rparen (isWord f pos cs) :
+    lexGo isWord (f + 1) pos (Generated.exprRParen :: cs) = (lexGo isWord f (pos + 1) cs).push (.rparen, pos) := by
+  rw [lexGo]; have h1 := parens_facts.2.1; have h2 := parens_facts.2.2; unfold isBlank at h1
+  simp only [h1, Bool.false_eq_true, ↓reduceIte, beq_iff_eq, Ne.symm h2, beq_self_eq_true]
+
+theorem lexGo_ident {isWord} (f pos) {c cs} (hb : isBlank c = false) (hl : c ≠ Generated.exprLParen)
+    (hr : c ≠ Generated.exprRParen) (hc : isIdentChar isWord c = true) :
+    lexGo isWord (f + 1) pos (c :: cs) =
+      (lexGo isWord f (pos + (cs.takeWhile (isIdentChar isWord)).length + 1)
+        (cs.dropWhile (isIdentChar isWord))).push (classify (c :: cs.takeWhile (isIdentChar isWord)), pos) := by
+  rw [lexGo]; unfold isBlank at hb
+  simp only [hb, Bool.false_eq_true, ↓reduceIte, beq_iff_eq, hl, hr, hc, List.length_cons, Nat.add_assoc]
+
+theorem lexGo_bad {isWord} (f pos) {c cs} (hb : isBlank c = false) (hl : c ≠ Generated.exprLParen)
+    (hr : c ≠ Generated.exprRParen) (hc : isIdentChar isWord c = false) :
+    lexGo isWord (f + 1) pos (c :: cs) = ⟨[], .bad pos⟩ := by
+  rw [lexGo]; unfold isBlank at hb
+  simp only [hb, Bool.false_eq_true, ↓reduceIte, beq_iff_eq, hl, hr, hc]
+
+/-- Every character is of exactly one of the five kinds the loop distinguishes. -/
+theorem char_cases (isWord : Char → Bool) (c : Char) :
+    isBlank c = true ∨ (isBlank c = false ∧ c = Generated.exprLParen) ∨
+    (isBlank c = false ∧ c ≠ Generated.exprLParen ∧ c = Generated.exprRParen) ∨
+    (isBlank c = false ∧ c ≠ Generated.exprLParen ∧ c ≠ Generated.exprRParen ∧ isIdentChar isWord c = true) ∨
+    (isBlank c = false ∧ c ≠ Generated.exprLParen ∧ c ≠ Generated.exprRParen ∧ isIdentChar isWord c = false) := by
+  cases isBlank c <;> by_cases h1 : c = Generated.exprLParen <;> by_cases h2 : c = Generated.exprRParen <;>
+    cases isIdentChar isWord c <;> simp_all
+
+theorem length_dropWhile_le {α} (p : α → Bool) (l : List α) : (l.dropWhile p).length ≤ l.length := by
+  induction l with
+  | nil => simp
+  | cons a l ih => rw [List.dropWhile_cons]; split <;> simp <;> omega
+
+/-- The amount of fuel does not matter once it covers the remaining characters. -/
+theorem lexGo_fuel (isWord : Char → Bool) : ∀ f g pos cs, cs.length ≤ f → cs.length ≤ g →
+    lexGo isWord f pos cs = lexGo isWord g pos cs := by
+  intro f
+  induction f with
+  | zero => intro g pos cs hf hg; have : cs = [] := by simpa using hf
+            subst this; simp
+  | succ f ih =>
+    intro g pos cs hf hg
+    rcases cs with _ | ⟨c, cs⟩
+    · simp
+    · obtain ⟨g, rfl⟩ : ∃ g', g = g' + 1 := ⟨g - 1, by simp at hg; omega⟩
+      simp only [List.length_cons, Nat.add_le_add_iff_right] at hf hg
+      rcases char_cases isWord c with h | ⟨hb, rfl⟩ | ⟨hb, hl, rfl⟩ | ⟨hb, hl, hr, hc⟩ | ⟨hb, hl, hr, hc⟩
+      · rw [lexGo_blank _ _ _ h, lexGo_blank _ _ _ h, ih g _ _ hf hg]
+      · rw [lexGo_lparen, lexGo_lparen, ih g _ _ hf hg]
+      · rw [lexGo_rparen, lexGo_rparen, ih g _ _ hf hg]
+      · have := length_dropWhile_le (isIdentChar isWord) cs
+        rw [lexGo_ident _ _ hb hl hr hc, lexGo_ident _ _ hb hl hr hc, ih g _ _ (by omega) (by omega)]
+      · rw [lexGo_bad _ _ hb hl hr hc, lexGo_bad _ _ hb hl hr hc]
+
+
+theorem takeWhile_append_stop {α} (p : α → Bool) (w rest : List α) (hw : ∀ c ∈ w, p c = true)
+    (hr : ∀ c, rest.head? = some c → p c = false) : (w ++ rest).takeWhile p = w := by
+  induction w with
+  | nil =>
+    rcases rest with _ | ⟨c, rest⟩
+    · simp
+    · simp [hr c (by simp)]
+  | cons a w ih =>
+    simp only [List.cons_append, List.takeWhile_cons, hw a (by simp), ↓reduceIte]
+    rw [ih (fun c hc => hw c (by simp [hc]))]
+
+theorem dropWhile_append_stop {α} (p : α → Bool) (w rest : List α) (hw : ∀ c ∈ w, p c = true)
+    (hr : ∀ c, rest.head? = some c → p c = false) : (w ++ rest).dropWhile p = rest := by
+  induction w with
+  | nil =>
+    rcases rest with _ | ⟨c, rest⟩
+    · simp
+    · simp [hr c (by simp)]
+  | cons a w ih =>
+    simp only [List.cons_append, List.dropWhile_cons, hw a (by simp), ↓reduceIte]
+    exact ih (fun c hc => hw c (by simp [hc]))
+
+/-- A run of blanks is skipped. -/
+theorem lexGo_blanks (isWord : Char → Bool) : ∀ (b : List Char) f pos rest, (∀ c ∈ b, isBlank c = true) →
+    (b ++ rest).length ≤ f → lexGo isWord f pos (b ++ rest) = lexGo isWord f (pos + b.length) rest := by
+  intro b
+  induction b with
+  | nil => intros; simp
+  | cons c b ih =>
+    intro f pos rest hb hf
+    obtain ⟨f, rfl⟩ : ∃ f', f = f' + 1 := ⟨f - 1, by simp at hf; omega⟩
+    simp only [List.cons_append, List.length_cons, Nat.add_le_add_iff_right] at hf
+    rw [List.cons_append, lexGo_blank _ _ _ (hb c (by simp)), ih f _ _ (fun c hc => hb c (by simp [hc])) hf]
+    rw [lexGo_fuel isWord f (f + 1) _ rest (by simp at hf; omega) (by simp at hf; omega)]
+    simp [Nat.add_assoc, Nat.add_comm 1]
+
+/-- A maximal run of identifier characters becomes one token, classified as a whole. -/
+theorem lexGo_word {isWord} (hw : WordSane isWord) (w rest : List Char) (f pos : Nat) (hne : w ≠ [])
+    (hall : ∀ c ∈ w, isIdentChar isWord c = true)
+    (hstop : ∀ c, rest.head? = some c → isIdentChar isWord c = false) (hf : (w ++ rest).length ≤ f) :
+    lexGo isWord f pos (w ++ rest) = (lexGo isWord f (pos + w.length) rest).push (classify w, pos) := by
+  rcases w with _ | ⟨c, w⟩
+  · exact absurd rfl hne
+  · obtain ⟨f, rfl⟩ : ∃ f', f = f' + 1 := ⟨f - 1, by simp at hf; omega⟩
+    have hc := hall c (by simp)
+    obtain ⟨hb, hl, hr⟩ := identChar_not_delim hw hc
+    have hall' : ∀ c ∈ w, isIdentChar isWord c = true := fun c hc => hall c (by simp [hc])
+    rw [List.cons_append, lexGo_ident _ _ hb hl hr hc, takeWhile_append_stop _ _ _ hall' hstop,
+      dropWhile_append_stop _ _ _ hall' hstop]
+    rw [lexGo_fuel isWord f (f + 1) _ rest (by simp at hf; omega) (by simp at hf; omega)]
+    simp [Nat.add_assoc]
+
+/-- Positions: tokens lie inside the text that was read, in front of where lexing stopped; `EOF` sits at the
+end of the text, a rejected character inside it. -/
+theorem lexGo_bounds (isWord : Char → Bool) : ∀ f pos cs, cs.length ≤ f →
+    (∀ t ∈ (lexGo isWord f pos cs).toks, pos ≤ t.2 ∧ t.2 < pos + cs.length) ∧
+    (match (lexGo isWord f pos cs).stop with
+     | .eof p => p = pos + cs.length
+     | .bad p => pos ≤ p ∧ p < pos + cs.length) := by
+  intro f
+  induction f with
+  | zero => intro pos cs hf; have : cs = [] := by simpa using hf
+            subst this; simp
+  | succ f ih =>
+    intro pos cs hf
+    rcases cs with _ | ⟨c, cs⟩
+    · simp
+    · simp only [List.length_cons, Nat.add_le_add_iff_right] at hf
+      rcases char_cases isWord c with h | ⟨hb, rfl⟩ | ⟨hb, hl, rfl⟩ | ⟨hb, hl, hr, hc⟩ | ⟨hb, hl, hr, hc⟩
+      · rw [lexGo_blank _ _ _ h]
+        obtain ⟨h1, h2⟩ := ih (pos + 1) cs hf
+        refine ⟨fun t ht => ?_, ?_⟩
+        · have := h1 t ht; simp only [List.length_cons]; omega
+        · revert h2; cases (lexGo isWord f (pos + 1) cs).stop <;> simp only [List.length_cons] <;> omega
+      · rw [lexGo_lparen]
+        obtain ⟨h1, h2⟩ := ih (pos + 1) cs hf
+        refine ⟨fun t ht => ?_, ?_⟩
+        · simp only [Lexed.push, List.mem_cons] at ht
+          rcases ht with rfl | ht
+          · simp
+          · have := h1 t ht; simp only [List.length_cons]; omega
+        · simp only [Lexed.push]
+          revert h2; cases (lexGo isWord f (pos + 1) cs).stop <;> simp only [List.length_cons] <;> omega
+      · rw [lexGo_rparen]
+        obtain ⟨h1, h2⟩ := ih (pos + 1) cs hf
+        refine ⟨fun t ht => ?_, ?_⟩
+        · simp only [Lexed.push, List.mem_cons] at ht
+          rcases ht with rfl | ht
+          · simp
+          · have := h1 t ht; simp only [List.length_cons]; omega
+        · simp only [Lexed.push]
+          revert h2; cases (lexGo isWord f (pos + 1) cs).stop <;> simp only [List.length_cons] <;> omega
+      · rw [lexGo_ident _ _ hb hl hr hc]
+        have hlen : (cs.takeWhile (isIdentChar isWord)).length + (cs.dropWhile (isIdentChar isWord)).length
+            = cs.length := by
+          rw [← List.length_append, List.takeWhile_append_dropWhile]
+        obtain ⟨h1, h2⟩ := ih (pos + (cs.takeWhile (isIdentChar isWord)).length + 1)
+          (cs.dropWhile (isIdentChar isWord)) (by omega)
+        refine ⟨fun t ht => ?_, ?_⟩
+        · simp only [Lexed.push, List.mem_cons] at ht
+          rcases ht with rfl | ht
+          · simp
+          · have := h1 t ht; simp only [List.length_cons]; omega
+        · simp only [Lexed.push]
+          revert h2
+          cases (lexGo isWord f (pos + (cs.takeWhile (isIdentChar isWord)).length + 1)
+            (cs.dropWhile (isIdentChar isWord))).stop <;> simp only [List.length_cons] <;> omega
+      · rw [lexGo_bad _ _ hb hl hr hc]; simp
+
+
+theorem takeWhile_append_reject {α} (p : α → Bool) (xs : List α) (c : α) (ys : List α) (hc : p c = false) :
+    (xs ++ c :: ys).takeWhile p = xs.takeWhile p := by
+  induction xs with
+  | nil => simp [hc]
+  | cons a xs ih => simp only [List.cons_append, List.takeWhile_cons, ih]
+
+theorem dropWhile_append_reject {α} (p : α → Bool) (xs : List α) (c : α) (ys : List α) (hc : p c = false) :
+    (xs ++ c :: ys).dropWhile p = xs.dropWhile p ++ c :: ys := by
+  induction xs with
+  | nil => simp [hc]
+  | cons a xs ih =>
+    simp only [List.cons_append, List.dropWhile_cons, ih]
+    split <;> simp
+
+/-- A character outside the alphabet stops the lexer exactly there: the tokens in front of it are those of
+the prefix, everything behind it is never looked at. -/
+theorem lexGo_reject {isWord : Char → Bool} (c : Char) (post : List Char) (hb : isBlank c = false)
+    (hl : c ≠ Generated.exprLParen) (hr : c ≠ Generated.exprRParen) (hc : isIdentChar isWord c = false) :
+    ∀ f pos pre, (pre ++ c :: post).length ≤ f → (∃ q, (lexGo isWord f pos pre).stop = .eof q) →
+      lexGo isWord f pos (pre ++ c :: post) = ⟨(lexGo isWord f pos pre).toks, .bad (pos + pre.length)⟩ := by
+  intro f
+  induction f with
+  | zero => intro pos pre hf; simp at hf
+  | succ f ih =>
+    intro pos pre hf hq
+    rcases pre with _ | ⟨d, pre⟩
+    · simp [lexGo_bad _ _ hb hl hr hc]
+    · simp only [List.cons_append, List.length_cons, Nat.add_le_add_iff_right] at hf
+      rw [List.cons_append]
+      rcases char_cases isWord d with h | ⟨hdb, rfl⟩ | ⟨hdb, hdl, rfl⟩ | ⟨hdb, hdl, hdr, hdc⟩ | ⟨hdb, hdl, hdr, hdc⟩
+      · rw [lexGo_blank _ _ _ h] at hq
+        rw [lexGo_blank _ _ _ h, lexGo_blank _ _ _ h]
+        rw [ih _ _ hf hq]; simp [Nat.add_assoc, Nat.add_comm 1]
+      · rw [lexGo_lparen] at hq
+        rw [lexGo_lparen, lexGo_lparen]
+        rw [ih _ _ hf (by simpa [Lexed.push] using hq)]; simp [Lexed.push, Nat.add_assoc, Nat.add_comm 1]
+      · rw [lexGo_rparen] at hq
+        rw [lexGo_rparen, lexGo_rparen]
+        rw [ih _ _ hf (by simpa [Lexed.push] using hq)]; simp [Lexed.push, Nat.add_assoc, Nat.add_comm 1]
+      · rw [lexGo_ident _ _ hdb hdl hdr hdc] at hq
+        rw [lexGo_ident _ _ hdb hdl hdr hdc, lexGo_ident _ _ hdb hdl hdr hdc]
+        rw [takeWhile_append_reject _ _ _ _ hc, dropWhile_append_reject _ _ _ _ hc]
+        have hlen : (pre.takeWhile (isIdentChar isWord)).length + (pre.dropWhile (isIdentChar isWord)).length
+            = pre.length := by
+          rw [← List.length_append, List.takeWhile_append_dropWhile]
+        rw [ih _ _ (by simp at hf ⊢; omega) (by simpa [Lexed.push] using hq)]
+        simp only [Lexed.push, Lexed.mk.injEq, Stop.bad.injEq, true_and, List.length_cons]
+        omega
+      · rw [lexGo_bad _ _ hdb hdl hdr hdc] at hq; simp at hq
+
+/-! ### Rendering token lists back to text -/
+
+/-- The text of a token. -/
+def Tok.text : Tok → List Char
+  | .lparen => [Generated.exprLParen]
+  | .rparen => [Generated.exprRParen]
+  | .or => ['o', 'r']
+  | .and => ['a', 'n', 'd']
+  | .not => ['n', 'o', 't']
+  | .ident s => s
+
+/-- Keywords and identifiers (tokens made of identifier characters), as opposed to parentheses. -/
+def Tok.wordy : Tok → Bool
+  | .lparen | .rparen => false
+  | _ => true
+
+/-- Identifier tokens as the lexer can produce them: a non-empty run of identifier characters that is not
+a keyword. -/
+def Tok.WF (isWord : Char → Bool) : Tok → Prop
+  | .ident s => s ≠ [] ∧ (∀ c ∈ s, isIdentChar isWord c = true) ∧ classify s = .ident s
+  | _ => True
+
+/-- Assumption on the parameter `isWord` (true of `\w`): the letters of the keywords are word characters. -/
+def KwWord (isWord : Char → Bool) : Prop := ∀ c ∈ ['o', 'r', 'a', 'n', 'd', 't'], isWord c = true
+
+/-- Text of a token list: before each token a (possibly empty) run of blanks, `trail` at the end. -/
+def render : List (List Char × Tok) → List Char → List Char
+  | [], trail => trail
+  | (b, t) :: rest, trail => b ++ (t.text ++ render rest trail)
+
+/-- Two adjacent keyword/identifier tokens are separated by at least one blank. -/
+def SepOK : List (List Char × Tok) → Prop
+  | (_, t1) :: (b2, t2) :: rest => (t1.wordy = true → t2.wordy = true → b2 ≠ []) ∧ SepOK ((b2, t2) :: rest)
+  | _ => True
+
+theorem classify_text {isWord} {t : Tok} (h : t.WF isWord) (hwd : t.wordy = true) : classify t.text = t := by
+  cases t with
+  | ident s => exact h.2.2
+  | lparen => simp [Tok.wordy] at hwd
+  | rparen => simp [Tok.wordy] at hwd
+  | or => decide
+  | and => decide
+  | not => decide
+
+theorem text_identChars {isWord} (hk : KwWord isWord) {t : Tok} (h : t.WF isWord) (hwd : t.wordy = true) :
+    t.text ≠ [] ∧ ∀ c ∈ t.text, isIdentChar isWord c = true := by
+  have kw : ∀ c ∈ ['o', 'r', 'a', 'n', 'd', 't'], isIdentChar isWord c = true := by
+    intro c hc; unfold isIdentChar; simp [hk c hc, Generated.identHasWordClass]
+  cases t with
+  | ident s => exact ⟨h.1, h.2.1⟩
+  | lparen => simp [Tok.wordy] at hwd
+  | rparen => simp [Tok.wordy] at hwd
+  | or => exact ⟨by simp [Tok.text], fun c hc => kw c (by simp [Tok.text] at hc; rcases hc with rfl | rfl <;> simp)⟩
+  | and => exact ⟨by simp [Tok.text], fun c hc => kw c (by simp [Tok.text] at hc; rcases hc with rfl | rfl | rfl <;> simp)⟩
+  | not => exact ⟨by simp [Tok.text], fun c hc => kw c (by simp [Tok.text] at hc; rcases hc with rfl | rfl | rfl <;> simp)⟩
+
+
+/-- Hypotheses of the round trip: blanks are blanks, identifiers are lexable identifiers. -/
+def ItemsOK (isWord : Char → Bool) (items : List (List Char × Tok)) : Prop :=
+  ∀ it ∈ items, (∀ c ∈ it.1, isBlank c = true) ∧ it.2.WF isWord
+
+/-- What follows a keyword/identifier token in a rendering does not continue it. -/
+theorem render_head_stop {isWord} (hw : WordSane isWord) (t : Tok) (b : List Char)
+    (rest : List (List Char × Tok)) (trail : List Char) (hwd : t.wordy = true)
+    (hok : ItemsOK isWord rest) (htr : ∀ c ∈ trail, isBlank c = true) (hsep : SepOK ((b, t) :: rest)) :
+    ∀ c, (render rest trail).head? = some c → isIdentChar isWord c = false := by
+  intro c hc
+  rcases rest with _ | ⟨⟨b2, t2⟩, rest⟩
+  · simp only [render] at hc
+    exact blank_not_identChar hw (htr c (List.mem_of_mem_head? hc))
+  · simp only [render] at hc
+    rcases b2 with _ | ⟨c2, b2⟩
+    · have hnw : t2.wordy = false := by
+        cases h2 : t2.wordy
+        · rfl
+        · exact absurd rfl (hsep.1 hwd h2)
+      cases t2 <;> simp [Tok.wordy] at hnw
+      · simp [Tok.text] at hc; subst hc; exact lparen_not_identChar hw
+      · simp [Tok.text] at hc; subst hc; exact rparen_not_identChar hw
+    · simp at hc; subst hc
+      exact blank_not_identChar hw ((hok (c2 :: b2, t2) (by simp)).1 c2 (by simp))
+
+theorem SepOK.tail {it : List Char × Tok} {rest} (h : SepOK (it :: rest)) : SepOK rest := by
+  rcases rest with _ | ⟨it2, rest⟩
+  · simp [SepOK]
+  · obtain ⟨b, t⟩ := it; obtain ⟨b2, t2⟩ := it2; exact h.2
+
+/-- Lexing a rendering gives back the tokens and reaches the end of the text. -/
+theorem lexGo_render {isWord} (hw : WordSane isWord) (hk : KwWord isWord) :
+    ∀ (items : List (List Char × Tok)) (trail : List Char) (f pos : Nat), ItemsOK isWord items →
+      (∀ c ∈ trail, isBlank c = true) → SepOK items → (render items trail).length ≤ f →
+      (lexGo isWord f pos (render items trail)).toks.map (·.1) = items.map (·.2) ∧
+      (lexGo isWord f pos (render items trail)).stop = .eof (pos + (render items trail).length) := by
+  intro items
+  induction items with
+  | nil =>
+    intro trail f pos _ htr _ hf
+    simp only [render] at hf
+    have := lexGo_blanks isWord trail f pos [] htr (by simpa using hf)
+    simp only [List.append_nil] at this
+    simp [render, this]
+  | cons it rest ih =>
+    intro trail f pos hok htr hsep hf
+    obtain ⟨b, t⟩ := it
+    have hokr : ItemsOK isWord rest := fun it hit => hok it (by simp [hit])
+    obtain ⟨hb, hwf⟩ := hok (b, t) (by simp)
+    simp only [render] at hf ⊢
+    rw [lexGo_blanks isWord b f pos _ hb hf]
+    simp only [List.length_append] at hf
+    by_cases hwd : t.wordy = true
+    · obtain ⟨hne, hall⟩ := text_identChars hk hwf hwd
+      rw [lexGo_word hw _ _ _ _ hne hall (render_head_stop hw t b rest trail hwd hokr htr hsep)
+        (by simp; omega)]
+      obtain ⟨h1, h2⟩ := ih trail f (pos + b.length + t.text.length) hokr htr hsep.tail (by omega)
+      simp only [Lexed.push, List.map_cons, classify_text hwf hwd, h1, h2, List.length_append]
+      exact ⟨trivial, by congr 1; omega⟩
+    · obtain ⟨f, rfl⟩ : ∃ f', f = f' + 1 := ⟨f - 1, by cases t <;> simp [Tok.text, Tok.wordy] at hf hwd <;> omega⟩
+      cases t <;> simp [Tok.wordy] at hwd
+      · simp only [Tok.text, List.cons_append, List.nil_append, List.length_cons, List.length_nil] at hf ⊢
+        rw [lexGo_lparen, lexGo_fuel isWord f (f + 1) _ _ (by omega) (by omega)]
+        obtain ⟨h1, h2⟩ := ih trail (f + 1) (pos + b.length + 1) hokr htr hsep.tail (by omega)
+        simp only [Lexed.push, List.map_cons, h1, h2, List.length_append, List.length_cons]
+        exact ⟨trivial, by congr 1; omega⟩
+      · simp only [Tok.text, List.cons_append, List.nil_append, List.length_cons, List.length_nil] at hf ⊢
+        rw [lexGo_rparen, lexGo_fuel isWord f (f + 1) _ _ (by omega) (by omega)]
+        obtain ⟨h1, h2⟩ := ih trail (f + 1) (pos + b.length + 1) hokr htr hsep.tail (by omega)
+        simp only [Lexed.push, List.map_cons, h1, h2, List.length_append, List.length_cons]
+        exact ⟨trivial, by congr 1; omega⟩
+
+
+/-! ## Part C: matchers -/
+
+/-- `a in b` (Python, strings) is the contiguous-substring relation. -/
+theorem isInfixB_iff (a b : List Char) : isInfixB a b = true ↔ a <:+: b := by
+  induction b with
+  | nil => simp [isInfixB, List.isPrefixOf_iff_prefix]
+  | cons c b ih =>
+    rw [isInfixB, Bool.or_eq_true, ih, List.isPrefixOf_iff_prefix, List.infix_cons_iff]
+
+theorem mem_selectIdx (pred : TaskInfo → Bool) (tasks : List TaskInfo) (i : Nat) :
+    i ∈ selectIdx pred tasks ↔ ∃ t, tasks[i]? = some t ∧ pred t = true := by
+  unfold selectIdx
+  simp only [List.mem_filterMap]
+  constructor
+  · rintro ⟨⟨j, t⟩, hmem, hp⟩
+    simp only at hp
+    split at hp
+    · rename_i hpt
+      simp only [Option.some.injEq] at hp; subst hp
+      refine ⟨t, ?_, hpt⟩
+      rw [List.mem_iff_getElem] at hmem
+      obtain ⟨k, hk, hk'⟩ := hmem
+      simp only [List.getElem_zip, List.getElem_range, Prod.mk.injEq] at hk'
+      obtain ⟨rfl, rfl⟩ := hk'
+      simp at hk
+      simp [hk]
+    · simp at hp
+  · rintro ⟨t, ht, hp⟩
+    refine ⟨(i, t), ?_, by simp [hp]⟩
+    rw [List.getElem?_eq_some_iff] at ht
+    obtain ⟨hi, rfl⟩ := ht
+    rw [List.mem_iff_getElem]
+    exact ⟨i, by simp [hi], by simp⟩
+
+
+theorem classify_ident_iff (w : List Char) :
+    classify w = .ident w ↔ w ≠ ['o', 'r'] ∧ w ≠ ['a', 'n', 'd'] ∧ w ≠ ['n', 'o', 't'] := by
+  unfold classify
+  simp only [Generated.exprKeywords, List.find?]
+  by_cases h1 : w = ['o', 'r']
+  · subst h1; simp [kindTok]
+  · by_cases h2 : w = ['a', 'n', 'd']
+    · subst h2; simp [kindTok]
+    · by_cases h3 : w = ['n', 'o', 't']
+      · subst h3; simp [kindTok]
+      · have e1 : (['o', 'r'] == w) = false := by simpa using Ne.symm h1
+        have e2 : (['a', 'n', 'd'] == w) = false := by simpa using Ne.symm h2
+        have e3 : (['n', 'o', 't'] == w) = false := by simpa using Ne.symm h3
+        simp [e1, e2, e3, h1, h2, h3]
+
+theorem classify_keywords : classify ['o', 'r'] = .or ∧ classify ['a', 'n', 'd'] = .and ∧
+    classify ['n', 'o', 't'] = .not := by decide
+
+/-- Columns of `ParseError` lie between 1 and one past the end of the string. -/
+theorem colAt_bounds (isWord : Char → Bool) (cs : List Char) (k : Nat) :
+    1 ≤ (lex isWord cs).colAt k ∧ (lex isWord cs).colAt k ≤ cs.length + 1 := by
+  obtain ⟨h1, h2⟩ := lexGo_bounds isWord cs.length 0 cs (Nat.le_refl _)
+  unfold Lexed.colAt lex
+  simp only [Generated.exprErrorColOffset]
+  split
+  · rename_i tk p rest heq
+    have hmem : (tk, p) ∈ (lexGo isWord cs.length 0 cs).toks :=
+      List.mem_of_mem_drop (by rw [heq]; simp)
+    have := h1 _ hmem
+    simp at this
+    omega
+  · revert h2
+    cases (lexGo isWord cs.length 0 cs).stop <;> simp [Stop.pos] <;> omega
+
+/-- The ASCII approximation of `\w` used in the non-vacuity examples. -/
+def asciiWord (c : Char) : Bool := c.isAlphanum || c == '_'
+
+theorem asciiWord_sane : WordSane asciiWord := by
+  intro c hc
+  refine ⟨?_, ?_, ?_⟩
+  · cases hb : isBlank c
+    · rfl
+    · unfold isBlank at hb
+      simp [Generated.exprWsChars] at hb
+      rcases hb with rfl | rfl <;> revert hc <;> decide
+  · rintro rfl; revert hc; decide
+  · rintro rfl; revert hc; decide
+
+theorem asciiWord_kw : KwWord asciiWord := by unfold KwWord; decide
+
+
 end Pytask.SelExpr
